@@ -40,7 +40,7 @@ use lightning::ln::chan_utils::{
 };
 use lightning::ln::channel_keys::{DelayedPaymentBasepoint, HtlcBasepoint, RevocationBasepoint};
 use lightning::types::payment::{PaymentHash, PaymentPreimage};
-use lightning_signer::chain::tracker::{Error as TrackerError, Headers};
+use lightning_signer::chain::tracker::Headers;
 use lightning_signer::channel::{ChannelBase, ChannelId, ChannelSetup, CommitmentType};
 use lightning_signer::node::{Node, SpendType};
 use lightning_signer::tx::tx::HTLCInfo2;
@@ -360,6 +360,7 @@ fn content_at(c: &ChanPlan, n: u64) -> CommitContent {
 
 /// A closing-transaction candidate produced by phase 1
 #[derive(Clone)]
+#[allow(dead_code)]
 struct CloseCand {
     label: &'static str,
     holder_broadcast: bool,
@@ -372,6 +373,7 @@ struct CloseCand {
 }
 
 #[derive(Clone)]
+#[allow(dead_code)]
 struct ChanCtx {
     id: ChannelId,
     group: usize,
@@ -943,10 +945,6 @@ fn feed_disconnect(node: &Arc<Node>, blk: &Blk, prev: &Headers, mode: Mode, chun
     })
 }
 
-#[allow(dead_code)]
-fn is_orphan(e: &TrackerError) -> bool {
-    matches!(e, TrackerError::OrphanBlock(_))
-}
 
 // ---------------------------------------------------------------------------------------------
 // The observed view
@@ -1610,6 +1608,8 @@ enum Op {
 }
 
 struct HistCfg {
+    /// self-test switch: judge by the best-chain replay alone (rule 1 off)
+    skip_rule1: bool,
     steps: usize,
     max_depth: usize,
     seed: u64,
@@ -1802,7 +1802,7 @@ fn run_history(rep: &mut Report, rng: &mut Rng, cfg: &HistCfg) {
             if strip_height(&before) != strip_height(want) {
                 rep.count("check.restores-view-before-connect.block-had-changed-the-view");
             }
-            if &now != want {
+            if &now != want && !cfg.skip_rule1 {
                 let items = diff_items(&now, want, &model);
                 rep.violation(
                     &format!("monitor:view-differs-from-view-before-connect:{}", items.join(",")),
@@ -1877,6 +1877,7 @@ fn main() {
     let shards = if quick { 16 } else { 64 };
     let histories = cli.scaled(if quick { 14 } else { 30 });
     let steps = if quick { 36 } else { 60 };
+    let skip_rule1 = cli.extra.get("skip-rule1").map(|s| s == "1").unwrap_or(false);
     let only_shard: Option<usize> = cli.extra.get("only-shard").and_then(|s| s.parse().ok());
     let only_history: Option<u64> = cli.extra.get("only-history").and_then(|s| s.parse().ok());
     let mut report = run_sharded("C14", cli.threads, shards, |shard, r| {
@@ -1890,7 +1891,7 @@ fn main() {
             // one independent stream per history, so that a history replays alone
             let mut rng = Rng::new(cli.seed.wrapping_mul(1_000_003).wrapping_add(shard as u64 * 100_003).wrapping_add(h));
             let max_depth = if h % 7 == 3 { 38 } else { 16 };
-            run_history(r, &mut rng, &HistCfg { steps, max_depth, seed: cli.seed, shard, index: h });
+            run_history(r, &mut rng, &HistCfg { skip_rule1, steps, max_depth, seed: cli.seed, shard, index: h });
         }
     });
     if only_shard.is_none() && only_history.is_none() {
